@@ -36,20 +36,29 @@ func init() {
 	})
 }
 
+// wordRead: v reads the given word, plainly (a load of the field) or with an
+// atomic load; it returns the reading instruction (for lockset queries).
+func wordRead(v ssa.Value, f *types.Var) (ssa.Instruction, bool) {
+	v = an.Resolve(v)
+	switch x := v.(type) {
+	case *ssa.UnOp:
+		if isLoadOfField(x, f) {
+			return x, true
+		}
+	case *ssa.Call:
+		if isAtomicLoadOf(x, f) {
+			return x, true
+		}
+	}
+	return nil, false
+}
+
 func isAtomicStoreTo(in ssa.Instruction, f *types.Var) (ssa.Value, bool) {
-	ci, ok := in.(ssa.CallInstruction)
-	if !ok {
+	a, ok := an.AtomicOn(in, f)
+	if !ok || a.Kind != "store" || a.Val == nil {
 		return nil, false
 	}
-	cc := ci.Common()
-	obj := an.CalleeObj(cc)
-	if obj == nil || obj.Pkg() == nil || obj.Pkg().Path() != "sync/atomic" || !strings.HasPrefix(obj.Name(), "Store") || len(cc.Args) != 2 {
-		return nil, false
-	}
-	if fv := an.PathOf(cc.Args[0]).Last(); fv == nil || fv.Origin() != f.Origin() {
-		return nil, false
-	}
-	return cc.Args[1], true
+	return a.Val, true
 }
 
 func isAtomicLoadOf(v ssa.Value, f *types.Var) bool {
@@ -57,12 +66,8 @@ func isAtomicLoadOf(v ssa.Value, f *types.Var) bool {
 	if !ok {
 		return false
 	}
-	obj := an.CalleeObj(call.Common())
-	if obj == nil || obj.Pkg() == nil || obj.Pkg().Path() != "sync/atomic" || !strings.HasPrefix(obj.Name(), "Load") {
-		return false
-	}
-	fv := an.PathOf(call.Common().Args[0]).Last()
-	return fv != nil && fv.Origin() == f.Origin()
+	a, ok := an.AtomicOn(call, f)
+	return ok && a.Kind == "load"
 }
 
 func c19r1(c *an.Ctx) {
@@ -380,7 +385,7 @@ func c19r3(c *an.Ctx) {
 		if k, isC := an.ConstInt(and.Y); !isC || k != 2 {
 			return
 		}
-		if ld, isLd := and.X.(*ssa.UnOp); isLd && isLoadOfField(ld, status) {
+		if ld, isLd := wordRead(and.X, status); isLd {
 			if pl.MustHoldClass(ld, fn.Params[0], smu) {
 				test = br
 			}
@@ -559,6 +564,9 @@ func c19r6(c *an.Ctx) {
 func pkgConstInt(c *an.Ctx, pkg, name string) int64 {
 	tp := must(c.P.TypePkg(pkg))
 	k, ok := tp.Scope().Lookup(name).(*types.Const)
+	if !ok && c.P.Ren != nil {
+		k, ok = c.P.Ren.Consts[tp.Path()+"\t"+name]
+	}
 	if !ok {
 		panic(&an.Unresolved{What: pkg + "." + name})
 	}
@@ -610,11 +618,11 @@ func c19r7(c *an.Ctx) {
 		if !isM || m != created {
 			return nil, false, false
 		}
-		ld, isLd := an.Resolve(sv).(*ssa.UnOp)
-		if !isLd || !isLoadOfField(ld, status) || len(fn.Params) == 0 || !pl.MustHoldClass(ld, fn.Params[0], smu) {
+		ld, isLd := wordRead(sv, status)
+		if !isLd || len(fn.Params) == 0 || !pl.MustHoldClass(ld, fn.Params[0], smu) {
 			return nil, false, false
 		}
-		return ld, cmp.Op == token.NEQ, true
+		return ld.(ssa.Value), cmp.Op == token.NEQ, true
 	}
 	nStore, nClose, nSent := 0, 0, 0
 	for _, fn := range must(c.P.SourceFuncs("drpcsignal")) {
